@@ -42,7 +42,7 @@ Definition zsort (l : list Z) : list Z := fold_right zinsert [] l.
 
 (** RenderViewTo(r, view): (z-index, what r receives) in the order r receives it *)
 Definition cv_render_z (cv : canvas) (view : mat) : list (Z * rop) :=
-  flat_map (fun z => map (fun l => (z, with_m l (mmul view (rm l)))) (al_lookup (cvlayers cv) z))
+  flat_map (fun z => map (fun l => (z, with_m l (mnorm (mmul view (rm l))))) (al_lookup (cvlayers cv) z))
            (zsort (map fst (cvlayers cv))).
 Definition cv_render_view (cv : canvas) (view : mat) : list rop := map snd (cv_render_z cv view).
 (** RenderTo(r) = RenderViewTo(r, Identity) *)
@@ -50,12 +50,12 @@ Definition cv_render (cv : canvas) : list rop := cv_render_view cv mid.
 
 (** Transform(m): every layer's matrix becomes m.Mul(l.m) *)
 Definition cv_transform (cv : canvas) (m : mat) : canvas :=
-  mkCv (map (fun '(z, ls) => (z, map (fun l => with_m l (mmul m (rm l))) ls)) (cvlayers cv)) (cvz cv) (cvW cv) (cvH cv).
+  mkCv (map (fun '(z, ls) => (z, map (fun l => with_m l (mnorm (mmul m (rm l)))) ls)) (cvlayers cv)) (cvz cv) (cvW cv) (cvH cv).
 
 (** Clip(rect) *)
 Definition cv_clip (cv : canvas) (r : rect) : canvas :=
   let cv' := cv_transform cv (mtranslate mid (- rx0 r) (- ry0 r)) in
-  mkCv (cvlayers cv') (cvz cv') (rW r) (rH r).
+  mkCv (cvlayers cv') (cvz cv') (Qred (rW r)) (Qred (rH r)).
 
 (** Rect.Empty / Rect.Transform / Rect.Add (util.go:394-453) *)
 Definition rempty (r : rect) : bool := qequal (rW r) 0 || qequal (rH r) 0.
